@@ -96,7 +96,6 @@ async fn run_t<TC: ModelCfg>(spec: Spec) -> Out {
         }
     };
     let pk = dir.get_public_key().await.unwrap().as_bytes().to_vec();
-    let mut prng = Rng::new(spec.perm_seed);
     let checks = Checks { c02: true, c03: true, c04: true, every: 1, audit_pairs: 2, ..Default::default() };
     for (oi, op) in h.ops.iter().enumerate() {
         let batch = match op {
@@ -147,6 +146,9 @@ async fn run_t<TC: ModelCfg>(spec: Spec) -> Out {
         if updated > 0 {
             out.p("commit_updates_existing_nodes");
         }
+        // every publish draws from its own stream, so that replaying a single crash point (`only`) sees the
+        // same points as the enumeration did
+        let mut prng = Rng::new(spec.perm_seed ^ ((oi as u64 + 1) << 20));
         let mut points = crash_points(others.len(), &mut prng, spec.max_prefixes, spec.subsets);
         points.push(("all records incl. the epoch record".into(), (0..others.len()).collect()));
         let last = points.len() - 1;
@@ -195,7 +197,7 @@ async fn run_t<TC: ModelCfg>(spec: Spec) -> Out {
                 }
             }
             // a fresh writer-capable instance must agree on the epoch hash as well
-            if prng.chance(1, 3) {
+            if Rng::new(spec.perm_seed ^ ((oi as u64 + 1) << 20) ^ (pi as u64 + 1)).chance(1, 3) {
                 let wmgr = make_manager(rstore.handle(3), &CacheSpec::None);
                 if let Ok(d2) = Directory::<TC, _, _>::new(wmgr, vrf.clone(), par).await {
                     out.checks += 1;
